@@ -281,11 +281,41 @@ def deterministic_cyclic_wfsa(rng, q=3, sigma=2):
     return A(frozenset(states), {0: next(it)}, {s: next(it) for s in stop}, [(i, a, j, next(it)) for i, a, j in arcs])
 
 
+def confluent_wfsa(rng, q=4, sigma=2, extra=3):
+    """Two arcs on the same symbol out of one state whose targets' epsilon closures meet (i -x-> j1, i -x-> j2, j1 -eps*-> k <-eps*- j2),
+    on an accepting path, plus a few random arcs: after epsilon removal several original paths land on ONE arc (i, x, k) and their
+    weights must add up (strengthened after seeded change C11-3)."""
+    states = list(range(q))
+    syms = terms(sigma)
+    i, j1, j2 = rng.sample(states, 3)
+    k = rng.choice([j2] + [s for s in states if s not in (i, j1)])
+    x = rng.choice(syms)
+    arcs = [(i, x, j1), (i, x, j2), (j1, EPS, k)]
+    if k != j2:
+        arcs.append((j2, EPS, k))
+    for _ in range(rng.randint(0, extra)):
+        a, b = rng.choice(states), rng.choice(states)
+        y = rng.choice(syms + [EPS])
+        if y == EPS and (a >= b):
+            continue            # keep the epsilon structure acyclic: epsilon sums stay finite
+        if (a, y, b) not in arcs:
+            arcs.append((a, y, b))
+    start = [i] + ([rng.choice(states)] if rng.random() < 0.3 else [])
+    stop = [k] + ([rng.choice(states)] if rng.random() < 0.3 else [])
+    start, stop = sorted(set(start)), sorted(set(stop))
+    ws = generic_weights(len(arcs) + len(start) + len(stop), scale=2, rng=rng)
+    it = iter(ws)
+    return A(frozenset(states), {s: next(it) for s in start}, {s: next(it) for s in stop}, [(a, y, b, next(it)) for a, y, b in arcs])
+
+
 def automaton_domain(seed, n_random, q=3, sigma=2, m=5, tag="rand"):
     rng = random.Random(seed)
     out = list(full_corpus().items())
     for i in range(n_random):
         out.append((f"{tag}{seed}_{i}", random_wfsa(rng, q, sigma, m)))
+    rng2 = random.Random(seed * 7919 + 13)
+    for i in range(max(8, n_random // 8)):
+        out.append((f"confl{seed}_{i}", confluent_wfsa(rng2, max(q, 3) + (i % 2), sigma)))
     return out
 
 
